@@ -168,8 +168,23 @@ func (c *SpecCtx) lookupIdent(name string) (Val, bool) {
 	if name == "result" && c.result != nil {
 		return *c.result, true
 	}
+	if name == "result" && c.result == nil && c.locals {
+		if v, ok := c.lookupLocal(name); ok {
+			return v, true
+		}
+	}
 	if name == "now" {
 		return intV(c.heap.now), true
+	}
+	if name == "rangepos" && c.block != nil && c.f != nil {
+		// byte position of the string iterator of the loop whose header is c.block
+		for _, ins := range c.block.Instrs {
+			if nx, ok := ins.(*ssa.Next); ok && nx.IsString {
+				if it, ok := c.f.env[nx.Iter]; ok {
+					return intV(sel2(c.f.vc.cur(c.heap, q("E iterpos"), "Int"), pref(it.E), "0")), true
+				}
+			}
+		}
 	}
 	if c.locals {
 		if v, ok := c.lookupLocal(name); ok {
@@ -233,16 +248,36 @@ func (c *SpecCtx) lookupLocal(name string) (Val, bool) {
 			}
 		}
 		if len(found) > 1 && c.block != nil {
+			// the visible definition is the closest one that dominates the evaluation point
+			var best *ssa.Phi
 			for _, v := range keys {
-				if phi, ok := v.(*ssa.Phi); ok && phi.Comment == name && phi.Block() == c.block {
-					if _, over := c.env[v]; !over {
-						return c.f.env[v], true
-					}
+				phi, ok := v.(*ssa.Phi)
+				if !ok || phi.Comment != name {
+					continue
 				}
+				if _, over := c.env[v]; over {
+					continue
+				}
+				if phi.Block() != c.block && !phi.Block().Dominates(c.block) {
+					continue
+				}
+				if best == nil || best.Block().Dominates(phi.Block()) {
+					best = phi
+				}
+			}
+			if best != nil {
+				return c.f.env[best], true
 			}
 		}
 		if len(found) == 1 {
 			return found[0], true
+		}
+		if len(found) == 0 {
+			if v, ok := c.f.dbg[name]; ok {
+				if x, ok := c.f.env[v]; ok {
+					return x, true
+				}
+			}
 		}
 		if len(found) > 1 {
 			// prefer the most recently defined: ambiguous names are an error
@@ -437,6 +472,14 @@ func (c *SpecCtx) eval(e SExpr) Val {
 			ok := true
 			for _, tr := range x.Triggers {
 				for _, t := range tr {
+					// look through field selections: { s[k].f } is keyed like { s[k] }
+					for {
+						fd, isF := t.(SField)
+						if !isF {
+							break
+						}
+						t = fd.X
+					}
 					ix, isIx := t.(SIndex)
 					id, isId := SExpr(nil), false
 					if isIx {
@@ -445,6 +488,11 @@ func (c *SpecCtx) eval(e SExpr) Val {
 					if !isIx || !isId {
 						ok = false
 						continue
+					}
+					if bin, isBin := id.(SBinary); isBin && (bin.Op == "+" || bin.Op == "-") {
+						if _, isNum := bin.Y.(SNum); isNum {
+							id = bin.X // { s[k + c] }: keyed like { s[k] }
+						}
 					}
 					if nm, is := id.(SIdent); !is || nm.Name != kname {
 						ok = false
@@ -473,6 +521,21 @@ func (c *SpecCtx) eval(e SExpr) Val {
 			var ts []string
 			for _, t := range tr {
 				ts = append(ts, sub.eval(t).E)
+			}
+			// a struct-valued trigger (mk f1 f2 ...) would only match when every field is
+			// mentioned: use one pattern per field cell instead (any field read triggers)
+			if len(ts) == 1 && strings.HasPrefix(ts[0], "(mk_") {
+				parts := splitTop(ts[0][1 : len(ts[0])-1])
+				n := 0
+				for _, part := range parts[1:] {
+					if strings.Contains(part, "q!") && strings.HasPrefix(part, "(select ") {
+						pats = append(pats, ":pattern ("+part+")")
+						n++
+					}
+				}
+				if n > 0 {
+					continue
+				}
 			}
 			pats = append(pats, ":pattern ("+strings.Join(ts, " ")+")")
 		}
@@ -714,6 +777,13 @@ func (c *SpecCtx) evalField(x SField) Val {
 		si := u.structInfo(v.T)
 		for i := 0; i < si.St.NumFields(); i++ {
 			if si.St.Field(i).Name() == x.Name {
+				// (sel (mk a b c)) is simplified to the component
+				if strings.HasPrefix(v.E, "("+u.mkName(si)+" ") {
+					parts := splitTop(v.E[len(u.mkName(si))+2 : len(v.E)-1])
+					if len(parts) == si.St.NumFields() {
+						return c.f.en.mkVal(si.St.Field(i).Type(), parts[i])
+					}
+				}
 				return c.f.en.mkVal(si.St.Field(i).Type(), app(u.selName(si, x.Name), v.E))
 			}
 		}
@@ -947,6 +1017,10 @@ func (c *SpecCtx) evalCall(x SCall) Val {
 					v.T = t
 				}
 			}
+			// name large closed argument terms: keeps queries small and keeps ite out of patterns
+			if len(v.E) > 40 && !strings.Contains(v.E, "q!") && v.S != "Nil" && v.S != "Tuple" && !c.quiet {
+				v.E = c.f.vc.define("arg "+p.Name, v.S, v.E)
+			}
 			binds[p.Name] = v
 		}
 		sub := c.with(binds)
@@ -961,7 +1035,11 @@ func (c *SpecCtx) evalCall(x SCall) Val {
 		sub.depth = c.depth + 1
 		sub.result = nil
 		// only predicate parameters (and outer quantifier variables) are visible
-		return sub.eval(pd.Body)
+		res := sub.eval(pd.Body)
+		if res.S != "Bool" && len(res.E) > 40 && !strings.Contains(res.E, "q!") && res.S != "Tuple" && !c.quiet {
+			res.E = c.f.vc.define("val "+pd.Name, res.S, res.E)
+		}
+		return res
 	}
 	if sf, ok := c.f.en.cs.Specs[x.Fn]; ok {
 		a := args()
@@ -1019,7 +1097,13 @@ func (c *SpecCtx) lvalueTargets(e SExpr) ([]lvTarget, bool) {
 	u := c.f.en.u
 	switch x := e.(type) {
 	case SField:
-		v := c.eval(x.X)
+		var v Val
+		if ix, isIx := x.X.(SIndex); isIx {
+			// field of a slice element: s[i].f
+			v = c.addrOf(ix)
+		} else {
+			v = c.eval(x.X)
+		}
 		if st, ok := c.structOf(v.T); ok {
 			if gs, ok := c.ghostField(st, x.Name); ok {
 				_, s := c.resolveType(gs)
@@ -1061,6 +1145,13 @@ func (c *SpecCtx) lvalueTargets(e SExpr) ([]lvTarget, bool) {
 					out = append(out, lvTarget{q("H " + typeKey(st) + "." + g.Name), s, pref(v.E), pidx(v.E)})
 				}
 				return out, true
+			}
+		case "allmaps": // allmaps(m): every map of m's type (component granularity)
+			v := c.eval(x.Args[0])
+			if mt, ok := v.T.Underlying().(*types.Map); ok {
+				d, vv := c.f.mapComps(mt)
+				c.f.mapCur(mt, c.heap)
+				return []lvTarget{{d, "MapDom", "", ""}, {vv, "MapVal", "", ""}}, true
 			}
 		case "entries": // entries(m)
 			v := c.eval(x.Args[0])
@@ -1201,6 +1292,16 @@ func (en *Engine) lvalueComps(e SExpr, fn *ssa.Function) ([]lvTarget, bool) {
 func addShift(lo, i string) string {
 	if strings.HasPrefix(i, "(- q!") && strings.HasSuffix(i, " "+lo+")") {
 		return strings.TrimSuffix(strings.TrimPrefix(i, "(- "), " "+lo+")")
+	}
+	for _, op := range []string{"+", "-"} {
+		// (op (- q!k lo) c)  ==>  (op q!k c)
+		pre := "(" + op + " (- q!"
+		if strings.HasPrefix(i, pre) {
+			rest := i[len(pre)-len("q!"):]
+			if j := strings.Index(rest, " "+lo+") "); j > 0 && !strings.Contains(rest[:j], " ") {
+				return "(" + op + " " + rest[:j] + " " + rest[j+len(" "+lo+") "):]
+			}
+		}
 	}
 	if lo == "0" {
 		return i
